@@ -189,3 +189,29 @@ func waitQuiescentOrSpinning(window int) (q quiesceResult, ok bool, spinning str
 	}
 	return q, false, spinning
 }
+
+
+// vegetaSpinning samples goroutine dumps for the given window and reports whether, in every
+// sample, something was running and everything that was running (this goroutine aside) was
+// inside vegeta code, with the same goroutines each time: workers that neither park nor finish.
+func vegetaSpinning(window time.Duration) (string, bool) {
+	var ids, frames string
+	for end := time.Now().Add(window); time.Now().Before(end); time.Sleep(100 * time.Millisecond) {
+		cur, fr := "", ""
+		for _, g := range goroutineDump() {
+			if parkedG(g) || g.State == "IO wait" || (g.State == "running" && !isVegetaG(g)) {
+				continue
+			}
+			if !isVegetaG(g) {
+				return "", false
+			}
+			cur += g.ID + ","
+			fr += g.Frames + "\n\n"
+		}
+		if cur == "" || (ids != "" && cur != ids) {
+			return "", false
+		}
+		ids, frames = cur, fr
+	}
+	return frames, ids != ""
+}
